@@ -161,9 +161,9 @@ def prepare_once(selfcheck=False):
             os.rename(tmpdst, dst)
         finally:
             shutil.rmtree(sc, ignore_errors=True)
-        # keep the three most recent builds
+        # keep the eight most recent builds (several trees may be under test at once: selftest mutants)
         ents = sorted(glob.glob(os.path.join(BUILD, "cache", "*")), key=os.path.getmtime, reverse=True)
-        for e in ents[3:]:
+        for e in ents[8:]:
             shutil.rmtree(e, ignore_errors=True)
         log("prepare: built %s in %.1fs" % (key, time.time() - t0))
         return dst
@@ -286,6 +286,9 @@ def run_case(bdir, case, outdir, tag, runwall=180):
     if rc == 12 or prog.startswith("WALL-WATCHDOG") or "synctest channel" in out or "outside bubble" in out or "synctest:" in out:
         # a fatal error of testing/synctest is about how the harness uses objects across bubbles, never about the code under test
         return {"class": "harness", "detail": "exit %d %s %s" % (rc, prog[:2000], out[-2000:])}
+    m = re.search(r"^(panic: |fatal error: |unexpected fault address|SIG[A-Z]+: |signal )", out, re.M)
+    if m and len(out) > 3000:
+        out = out[m.start():m.start() + 2500] + "\n[...]\n" + out[-1200:]
     if not death_in_code_under_test(out):
         # the goroutine that brought the process down has no frame of the code under test: the harness's own bug
         return {"class": "harness", "detail": "worker died (exit %d) in harness code:\n%s" % (rc, out[-3000:])}
@@ -298,7 +301,7 @@ UNDER_TEST = re.compile(r"^(github\.com/akrennmair/updog(/driver|/internal/[a-z]
 def death_in_code_under_test(out):
     """True unless the output shows a Go panic / fatal error whose first goroutine block (the one that died) has
     no frame of the code under test. Deaths without a Go trace (signals, OOM) stay attributed to the case."""
-    m = re.search(r"^(panic: |fatal error: )", out, re.M)
+    m = re.search(r"^(panic: |fatal error: |unexpected fault address)", out, re.M)
     if not m:
         return True
     rest = out[m.start():]
